@@ -122,9 +122,25 @@ theorem transpose2_shape {α : Type} [Inhabited α] {t d : T α} {d0 d1 : Nat} (
 
 theorem t_wf {q r : QB} (hq : q.wf = true) (h : qbT q = .qb r) :
     r.wf = true ∧ r.F = q.F ∧ r.Q = q.Q ∧ r.axis = q.axis.map (!·) ∧ r.size = q.size.reverse ∧
-      q.data.transpose? 0 1 = some r.data := by
+      (q.size.length = 2 → q.data.transpose? 0 1 = some r.data) ∧ (q.size.length < 2 → r = q) := by
+  have hq0 := hq
   rw [wf_iff] at hq
   obtain ⟨h1, h2, h3, h4, h5⟩ := hq
+  -- fewer than two dimensions: the tensor itself (a per-axis tensor has at least two dimensions)
+  have small : q.size.length < 2 → r = q → r.wf = true ∧ r.F = q.F ∧ r.Q = q.Q ∧
+      r.axis = q.axis.map (!·) ∧ r.size = q.size.reverse ∧
+      (q.size.length = 2 → q.data.transpose? 0 1 = some r.data) ∧ (q.size.length < 2 → r = q) := by
+    intro hl hr
+    subst hr
+    have hax : r.axis = none := by
+      cases hax : r.axis with
+      | none => rfl
+      | some af => have := (h5 af hax).1; omega
+    refine ⟨hq0, rfl, rfl, by simp [hax], ?_, fun h2 => by omega, fun _ => rfl⟩
+    match hsz : r.size, hl with
+    | [], _ => rfl
+    | [_], _ => rfl
+    | _ :: _ :: _, hl => exact absurd hl (by simp)
   unfold qbT at h
   split at h
   · rename_i d0 d1 hsz
@@ -136,7 +152,7 @@ theorem t_wf {q r : QB} (hq : q.wf = true) (h : qbT q = .qb r) :
       split at h
       · rename_i hax
         cases h
-        refine ⟨?_, rfl, rfl, by simp [hax], by simp [hsz], hd⟩
+        refine ⟨?_, rfl, rfl, by simp [hax], by simp [hsz], fun _ => hd, fun hl => by simp [hsz] at hl⟩
         rw [wf_iff]
         exact ⟨hds, by rw [hdw, hds], h3, fun _ => h4 hax, fun af h => by simp [hax] at h⟩
       · rename_i af hax
@@ -148,13 +164,19 @@ theorem t_wf {q r : QB} (hq : q.wf = true) (h : qbT q = .qb r) :
           have hss' : q.scale.shape = [if af then d0 else 1, if af then 1 else d1] := by
             rw [hss]; cases af <;> simp [keptShape, List.getLastD]
           obtain ⟨hsh, hsw⟩ := transpose2_shape hss' hs
-          refine ⟨?_, rfl, rfl, by simp [hax], by simp [hsz], hd⟩
+          refine ⟨?_, rfl, rfl, by simp [hax], by simp [hsz], fun _ => hd, fun hl => by simp [hsz] at hl⟩
           rw [wf_iff]
           refine ⟨hds, by rw [hdw, hds], hsw, fun h => (by cases h), fun af' h => ?_⟩
           cases h
           refine ⟨by simp, ?_⟩
           show s.shape = _
           rw [hsh]; cases af <;> simp [keptShape, List.getLastD]
+  · rename_i d0 hsz
+    cases h
+    exact small (by simp [hsz]) rfl
+  · rename_i hsz
+    cases h
+    exact small (by simp [hsz]) rfl
   · cases h
 
 /-! ### elementwise ops, copies, dtype moves -/
